@@ -1,5 +1,15 @@
 """Per-property manifest rows: id -> (level category, engine, technique, level text, level note)."""
-T = {}
+T = {
+ "C02": ("exploration", "E1", "bounded exhaustive enumeration of forgeries: every single-bit flip of every ciphertext/tag/AD/nonce/key byte, every tag-byte XOR value, every truncation and extension, per length shape and family, on the real code",
+         "For each of the 15 AEAD families and each enumerated shape, the round trip and every member of the stated forgery classes is executed; each forgery must be rejected and (one-shot families) leave an all-zero plaintext buffer.",
+         "2^-128 tag collisions excluded; value patterns {counting, dense}; lengths up to the stated bound."),
+ "C03": ("exploration", "E1", "bounded exhaustive enumeration of (input length, output length, declared length, name length, customisation length) tuples on the real code against an independent reference built from the generic IV",
+         "All length tuples up to the bound for HASH/HASHA/XOF/XOFA, the fixed-length and customised XOFs on 5 backends are compared with a reference that derives every initial value with the real permutation from the generic IV.",
+         "Unkeyed functions: no LPC; message values by counting and dense patterns; reference bound to the shipped KAT corpus."),
+ "C04": ("exploration", "E1+LPC", "bounded exhaustive enumeration of key/message/output length tuples and of wrong tags (all bit flips, all byte XOR values) on the real code against the reference; affine-basis enumeration under a linearised permutation for Prf/Mac/PrfShort",
+         "Every length tuple up to the bound and every wrong tag of the two forgery classes is executed against a reference written from the ASCON-PRF spec, RFC 2104 and doc/kmac.dox.",
+         "Reference bound to KAT corpus; lengths beyond the bound only by a dozen long lengths."),
+}
 NA = {}
 ENGINES = [
  dict(name="E1", path="harness/", serves_properties=["C01", "C02", "C03", "C04", "C05", "C06", "C08", "C10"],
